@@ -143,7 +143,7 @@ theorem cross_engine_join_apply_raises_engine_error (st : Store) (fuel : Nat) (j
 /-- **`relation.join(fixed, backtrack=False, transfer=False)` across engines never returns a relation** (the target
 lives in an iteration engine, the fixed relation in any other engine; default preferred engine). -/
 theorem cross_engine_join_without_options_rejected (st : Store) (fuel : Nat) (p : PJoin) (t : Rel) (o : Opts)
-    (hpref : o.pref = none) (hbt : o.backtrack = false) (htr : o.transfer = false)
+    (hpref : o.pref = none ∨ o.pref = some p.fixed.engine) (hbt : o.backtrack = false) (htr : o.transfer = false)
     (hkt : t.engine.kind = .iter) (hne : p.fixed.engine ≠ t.engine)
     (hfix0 : p.join.resolved = true → p.join.minCols.subset p.fixed.columns = true)
     (res : Res) : applyOp st fuel (.pj p) t o ≠ .ok res :=
